@@ -127,15 +127,18 @@ TrResolve ==
   /\ IsEv("Resolve")
   /\ ev.ok
   /\ LET n == Name(ev.name) IN
-     CASE ev.why = "base"     -> ReadBase(A, n)
-       [] ev.why = "validate" -> Validate(A, n)
-       [] ev.why = "version"  -> ReadVersion(A, n)
-       [] ev.why = "ds"       -> DsResolve(A, n)
-       [] ev.why = "read"     -> RBegin(A, n)
-       [] ev.why = "gc"       -> GBegin(A, n)
-       [] ev.why = "open" /\ pc[A] = "k_open" -> KOpen(A, n)
-       [] ev.why = "init"     -> KCheck(A, n)
-       [] OTHER               -> NoopResolve(A, n)
+     \* A resolution the model is waiting for at this point is that step; one it is NOT waiting for (an additional look at
+     \* the pointer somewhere else in the same function) is accepted as long as it returns what the storage state allows -
+     \* the steps the model requires must still all arrive, so a missing or misplaced one is rejected later.
+     CASE ev.why = "base" /\ pc[A] = "c_base"         -> ReadBase(A, n)
+       [] ev.why = "validate" /\ pc[A] = "c_validate" -> Validate(A, n)
+       [] ev.why = "version" /\ pc[A] = "c_readver"   -> ReadVersion(A, n)
+       [] ev.why = "ds" /\ pc[A] = "ds_resolve"       -> DsResolve(A, n)
+       [] ev.why = "read" /\ Role[A] = "reader" /\ pc[A] = "idle" -> RBegin(A, n)
+       [] ev.why = "gc" /\ Role[A] = "collector" /\ pc[A] \in {"g_begin", "idle"} -> GBegin(A, n)
+       [] ev.why = "open" /\ pc[A] = "k_open"         -> KOpen(A, n)
+       [] ev.why = "init" /\ pc[A] = "k_check"        -> KCheck(A, n)
+       [] OTHER                                       -> NoopResolve(A, n)
 
 \* CAS backends: the pointer is read again, with its ETag, right before the new version is written
 \* (a pointer that is missing or does not parse yields no version: the code then resolves by scanning,
@@ -175,6 +178,8 @@ TrFault ==
             [] ev.cls = "marker" /\ ev.op \in {"get_modified_time", "delete_file"} ->
                   (IF ev.f \in loc[A].mseen THEN GMarkUndeletable(A, ev.f) ELSE Stutter)
             [] OTHER -> GSkip(A, ev.f)
+     \* a failing write outside the modelled namespace: the caller may propagate it (the model's Fault) or swallow it
+     ELSE IF ev.cls \in {"other", "dir"} /\ ev.when # "async" /\ Role[A] = "committer" THEN (Fault(A, ev.when) \/ Stutter)
      ELSE IF Role[A] = "reader" THEN RFault(A)
      ELSE IF InCreate(A) THEN KFault(A)
      ELSE IF pc[A] = "c_wmeta" /\ ev.when = "before" /\ ev.op = "exists" /\ ev.cls = "meta" THEN FaultInVersionProbe(A)
@@ -261,6 +266,9 @@ TrFlipHint ==
           /\ ev.cas => Name(ev.ifmatch) = loc[A].etagName       \* the conditional PUT is keyed to the read the model recorded
           /\ ev.ok <=> (hint' = [cls |-> "name", name |-> MyMetaName(A)] /\ loc'[A].after \in {"c_finish", "c_cleanup"})
 
+\* a write outside the modelled namespace (not pointer, metadata, manifest, list, marker or data file): no effect on the model
+TrWriteOther == IsEv("WriteOther") /\ ev.cls \in {"other", "dir"} /\ Stutter
+
 TrBackoff == IsEv("Backoff") /\ Backoff(A)
 \* (loc.target = 0: the metadata write itself failed, the handler's removal attempt finds nothing)
 TrDiscardMeta == IsEv("DiscardMeta") /\ (Name(ev.name) = MyMetaName(A) \/ loc[A].target = 0) /\ (IF ev.ok THEN DiscardMeta(A) ELSE DiscardMetaFails(A))
@@ -318,7 +326,7 @@ TrObserve ==
 
 TraceNext ==
   \/ TrCommitStart \/ TrFinish \/ TrFault \/ TrReadHintEtag
-  \/ TrBegin \/ TrResolve \/ TrHintUnusable \/ TrWriteMarker \/ TrWriteData \/ TrExists \/ TrRead \/ TrWriteMan \/ TrWriteList
+  \/ TrBegin \/ TrResolve \/ TrHintUnusable \/ TrWriteOther \/ TrWriteMarker \/ TrWriteData \/ TrExists \/ TrRead \/ TrWriteMan \/ TrWriteList
   \/ TrNow \/ TrTLock \/ TrTUnlock \/ TrLockTry \/ TrDUnlock \/ TrWriteMeta \/ TrFence \/ TrFlipHint
   \/ TrDiscardMeta \/ TrCrash \/ TrDamage \/ TrReadFailed \/ TrBackoff \/ TrHeartbeat \/ TrList \/ TrStat \/ TrDeleteMarker \/ TrDeleteFile \/ TrRet \/ TrTick \/ TrObserve
 
